@@ -2,6 +2,9 @@
 
 proof:          coq/Props/C12.v over Model/Sys.v (mixture.py setters, system.py:15-84 in exact rationals): what every accepted
                 system satisfies, two rejection theorems, and the REFUTATIONS of full soundness / completeness (known findings)
+tie T:          harness/translate_sys.py regenerates Src/SrcSys.v (decision expressions of _estimate_system_molecular_weight and of the two
+                linked Mixture setters; their statement skeleton must be the one the model was written against); C12_model_is_source proves
+                the bookkeeping rebuilt from them equal to Model/Sys.v
 correspondence: all shapes {absolute, percent, unspecified(last)} for 1-5 components x {no / consistent / inconsistent caller mass}
                 x value patterns: implementation (System(...)) vs extracted model: error class or generable flag and all three
                 values of every component
@@ -147,7 +150,7 @@ def dyadic_partition(rnd, n):
 
 
 def check(rep):
-    coq = fw.coq_check("C12", [])
+    coq = fw.coq_check("C12", ["SrcSys"])
     quick = rep.tier == "quick"
     rnd = random.Random(rep.seed + 12)
     cases = []
